@@ -447,6 +447,7 @@ var c03Probes = []struct {
 	{"asi-after-arrow-block-body", "x=()=>{}\n(1);y=a=>b=>{}\n[2].z;w=()=>{}\n/r/.test(q);v=()=>{}\n+1", "x=()=>{};(1);y=a=>b=>{};[2].z;w=()=>{};/r/.test(q);v=()=>{};+1"},
 	{"asi-after-async-arrow-and-yield", "let u=async(a)=>{}\n/r/;function*g(){x=yield\n(1)}", "let u=async(a)=>{};/r/;function*g(){x=yield;(1)}"},
 	{"no-asi-when-the-line-continues", "x=()=>{}\n,y=2;z=()=>a\n(1);f=function(){}\n(2)", "x=()=>{},y=2;z=()=>a(1);f=function(){}(2)"},
+	{"in-inside-computed-key-of-for-init", "for(x={[a in b]:1};;);for(y=class{[c in d](){}};;);", "for(x={[(a in b)]:1};;);for(y=class{[(c in d)](){}};;);"},
 	{"for-init-async-function-with-in", "for(async function(){a in b};;);", "for((async function(){(a in b);});;);"},
 }
 
